@@ -860,7 +860,7 @@ func runC17(run *mc.Run) int {
 	if run.Thorough() {
 		k, kext = 5, 3
 	}
-	peers := []string{"10.0.0.1", "::1", "fe80::1%eth0"}
+	peers := []string{"10.0.0.1", "::1", "fe80::1%eth0", "UNKNOWN"} // (UNKNOWN: what sshd prints when it cannot tell)
 	ports := []string{"1", "65535"}
 	var sm sampler
 	var embedded int64
@@ -1010,7 +1010,7 @@ func runC17(run *mc.Run) int {
 	pwg.Wait()
 	n += npiped
 	cov := mc.Coverage{Level: "exploration", Evaluations: int(n), Distinct: int(embedded), Exhaustive: complete, Samples: sm.samples,
-		Rule:  fmt.Sprintf("user names = every string of <=%d tokens over %q, every string of <=%d tokens over those plus %d fragments of sshd's own message grammar (' [preauth]', ': ', 'Invalid user ', ...), capped at 100 bytes (sshd's %%.100s), plus the empty name and hand-made forgeries, x 3 peer addresses x 2 ports x 5 message forms, through the real ProcessSshdLogEntry, and (names of <=3 / <=2 tokens without CR) again as lines written to a real FIFO read by the real syslog ingester; oracle: exactly one failed UserLogin whose source and port are the ones sshd appended. distinct_nontrivial = lines whose user name embeds ' from ' or ' port '", k, nameTokens, kext, len(extTokens)),
+		Rule:  fmt.Sprintf("user names = every string of <=%d tokens over %q, every string of <=%d tokens over those plus %d fragments of sshd's own message grammar (' [preauth]', ': ', 'Invalid user ', ...), capped at 100 bytes (sshd's %%.100s), plus the empty name and hand-made forgeries, x 4 peers (IPv4, IPv6, IPv6 with zone, UNKNOWN) x 2 ports x 5 message forms, through the real ProcessSshdLogEntry, and (names of <=3 / <=2 tokens without CR) again as lines written to a real FIFO read by the real syslog ingester; oracle: exactly one failed UserLogin whose source and port are the ones sshd appended. distinct_nontrivial = lines whose user name embeds ' from ' or ' port '", k, nameTokens, kext, len(extTokens)),
 		Extra: map[string]any{"lines_per_form": sm.forms, "token_bound": k}}
 	return run.Finish(cov)
 }
